@@ -880,6 +880,10 @@ class Flow(NLRI):
             instance._rd_override = settings.rd
             instance._packed_stale = True
 
+        foreign = instance.foreign()
+        if foreign:
+            raise ValueError(f'{foreign} is an IPv6 component, it can not be used in an ipv4 flow')
+
         return instance
 
     @property
@@ -1035,6 +1039,20 @@ class Flow(NLRI):
         self.rules.setdefault(ID, []).append(rule)
         self._packed_stale = True  # Mark packed as stale after modification
         return True
+
+    def foreign(self) -> str:
+        """Name a component which the address family of this flow does not define, if there is one.
+
+        An IPv6 prefix turns the flow into an IPv6 one, so this can only be told once every
+        component was added. Without one, next-header, traffic-class or flow-label would be
+        announced in an IPv4 NLRI, where RFC 8955 has no component 13 at all.
+        """
+        if self.afi == AFI.ipv4:
+            for ID in sorted(self.rules):
+                for rule in self.rules[ID]:
+                    if not isinstance(rule, FlowIPv4):
+                        return str(rule.NAME)
+        return ''
 
     def _encode_length(self, components: Buffer) -> Buffer:
         """Encode length prefix for wire format."""
